@@ -443,6 +443,26 @@ var keyTypes = []struct {
 		return newKad(rw, []complex128{0, complex(nz, 0), complex(0, nz)}, []complex128{1i})
 	}},
 	{"two instances, the same key in each", newTwoInst},
+	// keys that LOOK alike but are different keys: interface keys holding the same number in different
+	// dynamic types, strings differing in a trailing NUL, a tiny float next to zero
+	{"any(int 3) vs any(int64 3)", func(rw bool) rwlocker {
+		return newKad(rw, []any{int(3)}, []any{int64(3)})
+	}},
+	{"any(uint8 3) vs any(int 3)", func(rw bool) rwlocker {
+		return newKad(rw, []any{uint8(3)}, []any{int(3)})
+	}},
+	{"any(\"3\") vs any(int 3)", func(rw bool) rwlocker {
+		return newKad(rw, []any{"3"}, []any{int(3)})
+	}},
+	{"string a vs a+NUL", func(rw bool) rwlocker {
+		return newKad(rw, []string{"a"}, []string{"a\x00"})
+	}},
+	{"float64 0 vs smallest positive", func(rw bool) rwlocker {
+		return newKad(rw, []float64{0, math.Copysign(0, -1)}, []float64{math.SmallestNonzeroFloat64})
+	}},
+	{"int 0 vs 64 vs -1 vs MinInt", func(rw bool) rwlocker {
+		return newKad(rw, []int{64}, []int{math.MinInt})
+	}},
 	{"*int", func(rw bool) rwlocker {
 		p, q := new(int), new(int)
 		return newKad(rw, []*int{p}, []*int{q}) // equal pointees, different keys
@@ -600,8 +620,14 @@ func main() {
 			for _, w := range waits {
 				for _, o := range others {
 					scs = append(scs, hold(rw, h, w, o, ev.Pick(r, 2, 4)))
-					// the same with x and y being one key in two different instances
+					// the same with x and y being one key in two different instances, and for the key types
+					// whose keys x and y look alike
 					scs = append(scs, holdOn(newTwoInst, "two instances/", rw, h, w, o, ev.Pick(r, 2, 4)))
+					if w == "" {
+						for _, kt := range keyTypes {
+							scs = append(scs, holdOn(kt.mk, "key type "+kt.name+"/", rw, h, w, o, -1))
+						}
+					}
 				}
 			}
 		}
